@@ -399,6 +399,14 @@ def gen_c05(rng, sid0, thorough=False):
         pre = [mbap(10 + i, 1, random_valid_pdu(rng)) for i in range(rng.choice([0, 1, 3, 25]))]
         post = [mbap(90, 1, req_wsr(1, 1)), mbap(91, 1, req_read(3, 1, 1))]
         streams.append(("bad-" + kind, pre + [mk(0x1234, 1)] + post, kind))
+    # the malformed header ALONE (its seven bytes, nothing that would belong to it) directly followed by valid frames: the
+    # session ends there; what follows is not a new beginning
+    for kind, hdr in (("proto", [0x12, 0x34, 0, 1, 0, 6, 1]), ("proto-hi", [0x12, 0x34, 0x80, 0, 0, 6, 1]), ("len0", [0x12, 0x34, 0, 0, 0, 0, 1]),
+                      ("len255", [0x12, 0x34, 0, 0, 0, 255, 1]), ("len65535", [0x12, 0x34, 0, 0, 255, 255, 1])):
+        for npre in (1, 3):
+            pre = [mbap(10 + i, 1, random_valid_pdu(rng)) for i in range(npre)]
+            post = [mbap(90, 1, req_wsr(1, 1)), mbap(91, 1, req_read(3, 1, 1))]
+            streams.append((f"bare-bad-{kind}-after{npre}", pre + [hdr] + post, kind))
     for name, frames_b, bad in streams:
         data = [b for f in frames_b for b in f]
         for cname, chunks in chunkings(rng, data, thorough):
